@@ -117,6 +117,9 @@ def main(tier, replay=None):
     for kind in ("Array", "List"):
         cs.run(seqgen.header("Probe", list(range(8))),
                [seqgen.random_history(rng, kind, 8, nops(), maxlen=40 if quick else 200) for _ in range(nexec)], "random/" + kind)
+        # elements with a wide body (160 bytes) that own a block at either end: whatever moves elements moves all of each one
+        cs.run(seqgen.header("WProbe", list(range(8))),
+               [seqgen.random_history(rng, kind, 8, nops(), maxlen=40 if quick else 200) for _ in range(max(4, nexec // 2))], "random/%s/wide" % kind)
         cs.run(seqgen.header("Box", list(range(8))), [box_history(rng, kind, 8, nops()) for _ in range(nexec // 2)], "box/" + kind)
 
     # containers of Boxes deleted by the COLLECTOR (dropped, or still alive at exit) rather than by hand: what the Boxes own is
